@@ -104,6 +104,51 @@ d! {
     #[serde(untagged)]
     pub enum NumOverlap { Whole(i64), Fractional(f64), Text(String) }
     pub struct OverlapHolder { pub o: Overlap, pub n: Vec<NumOverlap>, pub maybe: Option<Overlap> }
+    /// nested options and boxes around named and inline types
+    pub struct Wrappers { pub a: Option<Box<Inner>>, pub b: Box<Option<u8>>, pub c: Vec<Box<UnitEnum>>, pub d: Option<Vec<Option<Inner>>>, pub e: BTreeMap<String, Option<UnitEnum>>, pub f: Option<BTreeMap<String, Inner>> }
+    #[serde(rename_all = "lowercase")]
+    pub enum LowerUnit { North, South }
+    /// internally tagged with a renamed tag value and a newtype variant around a struct
+    #[serde(tag = "kind", rename_all = "snake_case")]
+    pub enum TaggedNewtype { PlainUnit, Wraps(Inner), WithFields { how_many: u8, names: Vec<String> } }
+    /// adjacently tagged with documentation on variants
+    #[serde(tag = "t", content = "c")]
+    pub enum AdjDoc {
+        /// nothing inside
+        Empty,
+        /// a number
+        Num(u64),
+        /// two things
+        Pair(u8, bool),
+    }
+    pub struct Defaults2 { #[serde(default = "d_true")] pub on: bool, #[serde(default = "d_seven")] pub n: i16, #[serde(default)] pub inner: Option<Inner>, #[serde(default = "d_unit")] pub which: UnitEnum, #[serde(default = "d_list")] pub list: Vec<u8> }
+    pub struct Lengths2 {
+        #[schemars(length(min = 1))] pub a: BTreeMap<String, u8>,
+        #[schemars(length(min = 2, max = 2))] pub b: Vec<Inner>,
+        #[schemars(length(max = 0))] pub c: String,
+        #[schemars(inner(length(min = 1, max = 3)))] pub d: Vec<String>,
+        #[schemars(inner(range(min = 5, max = 9)))] pub e: Vec<u8>,
+    }
+    pub struct Ranges2 {
+        #[schemars(range(min = 0.0))] pub a: f32,
+        #[schemars(range(max = -1))] pub b: i8,
+        #[schemars(range(min = 18446744073709551615u64))] pub c: u64,
+        #[schemars(range(min = 1, max = 1))] pub d: Option<u16>,
+    }
+    pub struct SetsAndTuples { pub s: BTreeSet<i32>, pub h: std::collections::HashSet<u16>, pub o: Option<BTreeSet<String>>, pub fixed: [[u8; 2]; 2], pub deque: std::collections::VecDeque<i8> }
+    /// a struct whose every field is optional
+    pub struct AllOptional { pub a: Option<u8>, pub b: Option<String>, pub c: Option<Inner>, pub d: Option<Vec<u8>> }
+    #[serde(deny_unknown_fields, rename_all = "SCREAMING-KEBAB-CASE")]
+    pub struct StrictRenamed { pub first_one: u8, pub second: Option<Inner> }
+    #[serde(untagged)]
+    pub enum UntaggedNamed { A(Inner), B(Strict), C(Vec<Inner>), D(Option<u8>) }
+    pub struct RefHolder { pub u: UntaggedNamed, pub t: TaggedNewtype, pub a: AdjDoc, pub l: LowerUnit, pub w: Box<Wrappers>, pub o: Option<AllOptional> }
+    #[schemars(deny_unknown_fields)]
+    pub struct SchemaOnlyStrict { pub a: u8 }
+    #[schemars(title = "A title", description = "A description that is not a doc comment")]
+    pub struct Titled { #[schemars(title = "field title")] pub a: Option<Inner>, #[schemars(description = "desc on a ref field")] pub b: Inner, #[deprecated] #[schemars(description = "deprecated ref")] pub c: Option<UnitEnum> }
+    pub struct Chars { pub c: char, pub oc: Option<char>, pub vc: Vec<char> }
+    pub struct Nums { pub a: std::num::NonZeroU64, pub b: std::num::NonZeroI8, pub c: Option<std::num::NonZeroU16>, pub d: f32, pub e: Option<f64>, pub f: u128 }
     pub struct Bounds2 {
         #[schemars(range(min = 0, max = 0))] pub zero: i32,
         #[schemars(range(min = -128, max = 127))] pub small: i8,
@@ -111,6 +156,18 @@ d! {
     }
 }
 
+fn d_true() -> bool {
+    true
+}
+fn d_seven() -> i16 {
+    7
+}
+fn d_unit() -> UnitEnum {
+    UnitEnum::Beta
+}
+fn d_list() -> Vec<u8> {
+    vec![1, 2]
+}
 fn default_name() -> String {
     "dflt".into()
 }
